@@ -85,7 +85,8 @@ def run(chk):
             src = mutate.mutate(r.fork("m"), src)
         fs = {"files": [[path, src], ["q", "<v/>{{a}}"]], "scripts": scripts, "dev": (i % 7 == 0)}
         if i % 3 == 0:
-            fs["extra"] = r.choice(["var foo=1;", "function extra(){}", "var a=1;var b=2;"])   # set_extra_runtime_script, with and without scripts
+            # set_extra_runtime_script, with and without scripts: complete programs, also ones without their last `;` or ending in a line comment (D73)
+            fs["extra"] = r.choice(["var foo=1;", "function extra(){}", "var a=1;var b=2;", "var foo=1", "foo()", "var foo=1 // c", "var foo=1;// c ", "if(0){}", "var a=1\nvar b=2"])
         filesets.append(fs)
     # every expression form x child form x operand position (depth 2) as attribute, text, wx:if / wx:for operand and template data: the guards
     # and update-path trees written for them are part of the artefacts
@@ -122,6 +123,9 @@ def run(chk):
     for off in range(5):
         cyc = '<v wx:if="{{a}}"/><template is="t"/><v wx:for="{{l}}"/>'
         filesets.append({"files": [["phase%d" % off, '<template name="t">x</template>' + "<v/>" * (2185 + off) + cyc * 110]]})
+    for extra in ("var foo=1", "foo()", "var foo=1 // c", "/* c */", "var a=[1]"):
+        filesets.append({"files": [["p", "<v/>"]], "scripts": [["s", "exports.f=1"]], "extra": extra})
+        filesets.append({"files": [["p", '<wxs module="m">exports.f=1</wxs>{{m.f}}']], "scripts": [], "extra": extra})
     from . import jswriter
     jswriter.run(chk, filesets, cap=150 if quick else 1500)
     answers = core.run_harness([core.req("group", json.dumps(fs)) for fs in filesets], timeout=3600)
